@@ -1,3 +1,4 @@
+import Rv.Model.Wire
 import Rv.Model.Duration
 import Rv.Basic
 import Rv.Model.Range
@@ -116,6 +117,28 @@ def stepFields (fs : List String) (obs : String) : String :=
       | [_, r] => if r = s!"ok:{v}" then "ok" else "bad:size-does-not-read-back"
       | _ => "bad:size-does-not-read-back"
     m ++ "\t" ++ verdict
+  | ["wire", st, hd, cl, fl, bodyHex] =>
+    -- the framing decision, completion flag and bytes of RawHTTPResponder for one response
+    let body := if bodyHex = "-" then [] else (unhex bodyHex.toList).getD []
+    let clv : Option Nat := if cl = "-" then none else cl.toNat?
+    let r : Wire.Resp := { status := st.toNat?.getD 0, head := hd = "1", cl := clv, hdrs := [], body := body, fails := fl = "1" }
+    let f := Wire.frame r
+    let kind := if Wire.probeFails r then "none" else match Wire.framing r with
+      | .noBody => "none" | .length n => s!"length:{n}" | .chunked => "chunked" | .untilClose => "close"
+    let m := kind ++ " " ++ (if f.2 then "1" else "0") ++ " " ++ String.ofList (hex f.1)
+    -- C10 predicate on the implementation's bytes: a write reported complete must be readable by a client as exactly
+    -- one message with nothing left over (unless it is one of the two non-delimited shapes, which the generator flags)
+    let v := if obs.startsWith "panic" then "bad:panic" else
+      match obs.splitOn " " with
+      | [_, c, hx] =>
+        let bytes := (unhex hx.toList).getD []
+        if c = "1" && Wire.delimited r then
+          (match Wire.readOne r.head (bytes ++ "NEXT".toList) with
+           | some (_, rest) => if rest = "NEXT".toList then "ok" else "bad:complete-response-not-self-delimiting"
+           | none => "bad:complete-response-not-self-delimiting")
+        else "ok"
+      | _ => "bad:wire-observation"
+    m ++ "\t" ++ v
   | ["dur", n] =>
     -- the implementation's observation: hex of the JSON text it saved | what it read back
     let d := n.toInt?.getD 0
